@@ -171,6 +171,10 @@ def rules(ctx):
     result_type_dispatch(ctx, 'R15.6')
     ctx.rule('R15.1', "per path of the term loop the accumulators move by sound amounts; start at 0; returned (lo, hi)", floor=12)
     ctx.rule('R15.2', "quadratic extrema functions delegate to the function of their own kind", floor=2)
+    from .C07 import no_collapsing_dictcomp
+    no_collapsing_dictcomp(ctx, 'R15.2', {n_: P.func('_approximate_extrema.%s' % n_) for n_ in
+                                          ('approximate_pubo_extrema', 'approximate_qubo_extrema', 'approximate_puso_extrema', 'approximate_quso_extrema')
+                                          if P.has_func('_approximate_extrema.%s' % n_)})
     ctx.rule('R15.3', "_get_bounds fills exactly the missing component", floor=3)
     ctx.rule('R15.4', "temperature range: guards dominate arithmetic; (0,0) return dominates every reducer over "
                       "a possibly empty domain; T = -E/log(p) with E >= 0", floor=7)
